@@ -2,7 +2,7 @@
 import ast
 from ..affine import Lin, ge, decide
 from ..front import dotted, const_value, unparse, walk_no_nested, parent_map, kwarg
-from ..core import holds, violation, unrecognised
+from ..core import holds, violation, unrecognised, named
 from ..flow import AbsInt
 from ..rules import decide_states, pure_params
 
@@ -133,7 +133,7 @@ def accept_rules(fi, pm):
     if not mi:
         out.append(violation("R-ACCEPT", fi, role, "no `if iteration == max_iter: break`", w))
     elif body.index(mi[0]) > body.index(ml):
-        out.append(violation("R-ACCEPT", fi, role, "the max_iter test comes after the search/application", mi[0]))
+        out.append(named("R-ACCEPT", fi, role, "the max_iter test comes after the search/application", mi[0]))
     else:
         inc = [s for s in body if isinstance(s, ast.AugAssign) and unparse(s) == "iteration += 1"]
         init = [s for s in fi.node.body if isinstance(s, ast.Assign) and unparse(s) == "iteration = 0"]
@@ -233,7 +233,7 @@ def accept_rules(fi, pm):
         t = unparse(tl[0].test)
         if t in ("best_improvement <= tol", "tol >= best_improvement", "not best_improvement > tol"):
             if ap and len(ap) == 1 and body.index(tl[0]) < body.index(ap[0]):
-                out.append(violation("R-ACCEPT", fi, role, "the tol test precedes the application: the last improving substitution is dropped", tl[0]))
+                out.append(named("R-ACCEPT", fi, role, "the tol test precedes the application: the last improving substitution is dropped", tl[0]))
             else:
                 out.append(holds("R-ACCEPT", fi, role, t, tl[0]))
         elif t in ("improvement <= tol", "tol >= improvement"):
@@ -287,7 +287,6 @@ def accept_rules(fi, pm):
     if enum_src is None or not appl:
         out.append(unrecognised("R-SIB", fi, role_e, "search loop / application index not found"))
     elif any(unparse(a_.value) != unparse(enum_src) for a_ in appl):
-        from ..core import named
         bad_ = [a_ for a_ in appl if unparse(a_.value) != unparse(enum_src)][0]
         out.append(named("R-SIB", fi, role_e, "the search enumerates `%s` but the winner is taken from `%s[best_motif_idx]`: when the two lists differ "
                          "another motif than the one scored is substituted" % (unparse(enum_src)[:40], unparse(bad_.value)[:40]), bad_))
